@@ -169,33 +169,58 @@ def decideAction (o : Out) (v : Verdict) : Action :=
 def goWebWrite (data : Bytes) : Bytes :=
   (data.take (goWebWriteHi data.length).toNat).drop (goWebWriteLo data.length).toNat
 
-/-- later events of the connection, each processed to quiescence before the next -/
+/-- later events of the connection, each processed to quiescence before the next.  `peerEOF`: the peer ends ITS
+sending direction (a TCP FIN — a half close, or a full close: the server's `Read` cannot tell them apart) -/
 inductive Ev | peer (b : Bytes) | target (b : Bytes) | peerEOF | targetEOF
 deriving DecidableEq, Repr
 
+/-- how the redirect target behaves when `goWeb` reaches for it -/
+inductive Target
+  | up          -- the dial succeeds and the first write is taken
+  | dialFails   -- `RedirDialer.Dial` returns an error (target down / restarting)
+  | writeFails  -- the dial succeeds, the first `webConn.Write(data)` returns an error (reset)
+deriving DecidableEq, Repr
+
 structure Relay where
-  dialed : Bool
+  dialed : Bool             -- `RedirDialer.Dial` was called
   toTarget : List Bytes     -- writes to the target conn, in order
   toPeer : List Bytes       -- writes to the peer conn, in order
   «open» : Bool             -- both `common.Copy` loops still running
+  peerClosed : Bool         -- `Close()` was called on the peer conn
+  targetClosed : Bool       -- `Close()` was called on the target conn
 deriving DecidableEq, Repr
 
-/-- the two `common.Copy` goroutines: forward a chunk while open; the first EOF on either side ends both -/
+/-- the two `common.Copy` goroutines (`defer func() { src.Close(); dst.Close() }()`): forward a chunk while open; the
+first EOF on either side ends BOTH directions and closes both conns — a half close of the peer is not passed on, and
+what the target sends afterwards is lost -/
 def relayStep (r : Relay) : Ev → Relay
   | .peer b => if r.open then { r with toTarget := r.toTarget ++ [b] } else r
   | .target b => if r.open then { r with toPeer := r.toPeer ++ [b] } else r
-  | .peerEOF => { r with «open» := false }
-  | .targetEOF => { r with «open» := false }
+  | .peerEOF => if r.open then { r with «open» := false, peerClosed := true, targetClosed := true } else r
+  | .targetEOF => if r.open then { r with «open» := false, peerClosed := true, targetClosed := true } else r
 
 /-- the whole connection: peer chunks `cs` (then silence until the deadline, or EOF), the verdict on a complete
-first packet, later events -/
-def run (cs : Chunks) (v : Verdict) (evs : List Ev) : Action × Relay :=
+first packet, the behaviour of the redirect target, later events.  The three Booleans say what `goWeb` does at its
+two fault points (`run` instantiates them with the extracted facts): does the `Dial` error branch close the peer
+conn; does the `Write` error branch close the peer conn / the half-open target conn. -/
+def runWith (dialErrClosesPeer writeErrClosesPeer writeErrClosesTarget : Bool)
+    (cs : Chunks) (v : Verdict) (tg : Target) (evs : List Ev) : Action × Relay :=
   let o := (readFirstPacket cs).1
   let rest := (readFirstPacket cs).2
   match decideAction o v with
   | .web =>
-    -- dial; webConn.Write(goWebWrite data); then Copy forwards what is already waiting and what comes later
-    (.web, evs.foldl relayStep ⟨true, goWebWrite o.data :: rest, [], true⟩)
-  | a => (a, ⟨false, [], [], false⟩)
+    match tg with
+    | .up =>
+      -- dial; webConn.Write(goWebWrite data); then Copy forwards what is already waiting and what comes later
+      (.web, evs.foldl relayStep ⟨true, goWebWrite o.data :: rest, [], true, false, false⟩)
+    | .dialFails =>
+      (if dialErrClosesPeer then .close else .drop, ⟨true, [], [], false, dialErrClosesPeer, false⟩)
+    | .writeFails =>
+      (if writeErrClosesPeer then .close else .drop, ⟨true, [], [], false, writeErrClosesPeer, writeErrClosesTarget⟩)
+  | .close => (.close, ⟨false, [], [], false, true, false⟩)
+  | a => (a, ⟨false, [], [], false, false, false⟩)
+
+def run (cs : Chunks) (v : Verdict) (tg : Target) (evs : List Ev) : Action × Relay :=
+  runWith goWebDialErrClosesPeer goWebWriteErrClosesPeer goWebWriteErrClosesTarget cs v tg evs
 
 end FP
